@@ -340,6 +340,33 @@ def guard_strength(prog, fn, enum_path, variant, need_a, need_b):
     return {"relations": rels, "deciders": deciders, "host": host}
 
 
+def _closure_condition(fn, call_t):
+    """If exactly one closure is handed to the adapter call and it contains exactly one comparison, describe that comparison
+    (captured variables resolved to the enclosing function)."""
+    from .engine import resolve_upvars
+    prog = fn.prog
+    og = fn.origins()
+    cids = set()
+    for a in call_t["args"]:
+        for at in og.of_operand(a, deep=False):
+            if at.kind == "agg" and at.key[0] in prog.fns and prog.fns[at.key[0]].is_closure():
+                cids.add(at.key[0])
+        if "fn" in a and a.get("fn") in prog.fns and prog.fns[a["fn"]].is_closure():
+            cids.add(a["fn"])
+    if len(cids) != 1:
+        return None
+    c = prog.fns[cids.pop()]
+    cmps = comparisons(c)
+    if len(cmps) != 1:
+        return None
+    bb, kind, a, b, res, line = cmps[0]
+    cog = c.origins()
+
+    def toks(o):
+        return sorted(tokens_of_atoms(resolve_upvars(c, cog.of_operand(o, deep=True), True)))
+    return "cmp:%s:%s~%s" % (kind, ",".join(toks(a)), ",".join(toks(b)))
+
+
 def describe_condition(fn, sw_bb):
     """Refactor-tolerant description of what a SwitchInt tests."""
     t = fn.blocks[sw_bb]["t"]
@@ -362,7 +389,12 @@ def describe_condition(fn, sw_bb):
                     # copy / negation of another local: describe that one
                     for d2 in fn.defs().get(q[0], ()):
                         if d2[0] == "call":
-                            return "call:" + (fn.callee_of(d2[2]) or "?").rsplit("::", 1)[-1]
+                            nm2 = (fn.callee_of(d2[2]) or "?").rsplit("::", 1)[-1]
+                            if nm2 in ("is_some_and", "is_ok_and", "is_none_or", "map_or", "any", "all", "is_err_and"):
+                                inner = _closure_condition(fn, d2[2])
+                                if inner is not None:
+                                    return inner
+                            return "call:" + nm2
                         if d2[0] == "assign" and d2[4]["r"] == "bin":
                             rv2 = d2[4]
                             return "cmp:%s:%s~%s" % (rv2["op"], ",".join(sorted(side_tokens(fn, rv2["a"]))), ",".join(sorted(side_tokens(fn, rv2["b"]))))
@@ -372,6 +404,11 @@ def describe_condition(fn, sw_bb):
                 return "val:" + ",".join(toks)
         elif d[0] == "call":
             callee = (fn.callee_of(d[2]) or "?").rsplit("::", 1)[-1]
+            if callee in ("is_some_and", "is_ok_and", "is_none_or", "map_or", "any", "all", "is_err_and"):
+                # the test is the closure's: `x.checked_add(n).is_some_and(|end| end <= bytes.len())`
+                inner = _closure_condition(fn, d[2])
+                if inner is not None:
+                    return inner
             if callee in ("eq", "ne", "lt", "le", "gt", "ge"):
                 a = d[2]["args"]
                 return "cmp:%s:%s~%s" % (callee, ",".join(sorted(side_tokens(fn, a[0]))), ",".join(sorted(side_tokens(fn, a[1]))))
